@@ -298,7 +298,9 @@ def run(prop, tier):
             "harness_errors": herr[:20], "unrecognised_requests": unrec[:20],
             "exhaustive": False,
         }
-        vlib.write_evidence(prop, tier, "model_checking", cov, time.time() - t0, len(violations), [
+        # a replay of one history (VERIF_ONLY) or a restricted run does not replace the evidence of a full run
+        full = not os.environ.get("VERIF_ONLY") and not os.environ.get("VERIF_CAS_BACKENDS") and not os.environ.get("VERIF_CAS_COUNT")
+        (vlib.write_evidence if full else (lambda *a: None))(prop, tier, "model_checking", cov, time.time() - t0, len(violations), [
             "the real DynamoDB and the S3-compatible store (Tigris) are represented by protocol-level fakes in the harness "
             "(linearizable by construction; conditional-write semantics as documented: PutItem ConditionExpression, "
             "eventually consistent GetItem may be stale, PutObject If-Match <etag> / empty If-Match = create)",
